@@ -115,6 +115,32 @@ class T1Client(BaseClient):
                 for M, sites2 in app.items():
                     if M != L and len(sites2) == 1 and sites2[0][0] == sites[0][0] and isinstance(sites2[0][1], ast.Name) and sites2[0][1].id == sites[0][1].value.id:
                         saved_lists[L] = (sites[0][1].attr, M)
+        # saved in a dictionary keyed by the object:  D = {x: (.., x.a, ..) for x .. in ..}  ...  for x, (.., a0, ..) in D.items(): x.a = a0
+        saved_dicts = self.saved_dicts = {}
+        for n in ast.walk(fn):
+            if isinstance(n, ast.Assign) and len(n.targets) == 1 and isinstance(n.targets[0], ast.Name) and isinstance(n.value, ast.DictComp) \
+                    and isinstance(n.value.key, ast.Name):
+                k = n.value.key.id
+                vals = n.value.value.elts if isinstance(n.value.value, ast.Tuple) else [n.value.value]
+                slots = {j: v.attr for j, v in enumerate(vals) if isinstance(v, ast.Attribute) and isinstance(v.value, ast.Name) and v.value.id == k}
+                if slots:
+                    saved_dicts[n.targets[0].id] = (slots, isinstance(n.value.value, ast.Tuple))
+        for loop in ast.walk(fn):
+            if not isinstance(loop, ast.For):
+                continue
+            it = loop.iter
+            if isinstance(it, ast.Call) and isinstance(it.func, ast.Attribute) and it.func.attr == "items" and isinstance(it.func.value, ast.Name) \
+                    and it.func.value.id in saved_dicts and isinstance(loop.target, ast.Tuple) and len(loop.target.elts) == 2 and isinstance(loop.target.elts[0], ast.Name):
+                slots, is_tuple = saved_dicts[it.func.value.id]
+                kname, vt = loop.target.elts[0].id, loop.target.elts[1]
+                vnames = {j: e.id for j, e in enumerate(vt.elts) if isinstance(e, ast.Name)} if (is_tuple and isinstance(vt, ast.Tuple)) else \
+                    ({0: vt.id} if (not is_tuple and isinstance(vt, ast.Name)) else {})
+                for n in ast.walk(loop):
+                    if isinstance(n, ast.Assign) and isinstance(n.value, ast.Name):
+                        for t in n.targets:
+                            ra = recv_attr(t)
+                            if ra and ra[0] == kname and any(vnames.get(j) == n.value.id and a == ra[1] for j, a in slots.items()):
+                                self.restores[id(n)] = ra
         for loop in ast.walk(fn):
             if not isinstance(loop, ast.For):
                 continue
@@ -172,6 +198,11 @@ class T1Client(BaseClient):
             it, tg = it.args[0], tg.elts[1]
         if isinstance(it, ast.Call) and isinstance(it.func, ast.Name) and it.func.id == "zip" and isinstance(tg, ast.Tuple) and len(tg.elts) == len(it.args):
             return {ast.unparse(t): ast.unparse(a) for t, a in zip(tg.elts, it.args)}
+        if isinstance(it, ast.Call) and isinstance(it.func, ast.Attribute) and it.func.attr in ("items", "keys") and not it.args and isinstance(it.func.value, ast.Name) \
+                and isinstance(tg, (ast.Tuple, ast.Name)):
+            # `for obj, (..) in D.items()` / `for obj in D.keys()`: the objects are the keys of D
+            key = tg.elts[0] if isinstance(tg, ast.Tuple) and tg.elts else tg
+            return {ast.unparse(key): f"keys({it.func.value.id})"}
         return {ast.unparse(tg): ast.unparse(it)}
 
     def _loop_key(self, recv):
